@@ -12,6 +12,7 @@ from __future__ import annotations
 import math, warnings
 from fractions import Fraction
 import numpy as np
+import warnings
 import torch
 from vlib import cnat, clist, cfloat, coq_bool_cases
 from props.c07 import gen_exp, exp_coq, exp_eval, exp_str, fvec
@@ -135,6 +136,7 @@ def check(ctx):
     for i in failed[:3]:
         ctx.broken("correspondence:leggauss", {"case": meta[i], "coq": cases[i][:1200]})
     oracle(ctx)
+    round5_probes(ctx)
 
 
 def strip_y(e):
@@ -293,6 +295,57 @@ def oracle(ctx):
     v32 = quad(lambda x: x * x, torch.tensor(0.0), torch.tensor(3.0), n=4)
     if v32.dtype != torch.float32 or not abs(float(v32) - 9.0) <= 1e-5:
         ctx.fail("oracle", "quad:float32", {}, v32, 9.0)
+
+
+def round5_probes(ctx):
+    """(a) Python-number limits are used at the precision of the INTEGRAND's dtype, whatever torch's default dtype is: a float64
+    integrand on [0.1, 0.7] with the default dtype left at float32 (round-5 seed C12/13: the lower limit was converted with
+    torch.as_tensor before the rule ran and reached it rounded to float32).  (b) the integrand may be any callable OBJECT: it is
+    called through obj(x), so that a torch.nn.Module's hooks run (round-5 seed C12/14: a Module was resolved to module.forward)"""
+    from xitorch.integrate import quad
+    a = torch.tensor(1.5, dtype=DT, requires_grad=True)
+    old = torch.get_default_dtype()
+    try:
+        for dflt in (torch.float32, torch.float64):
+            torch.set_default_dtype(dflt)
+            for lo, hi in ((0.1, 0.7), (0.3, 1.1), (-0.7, 0.1)):
+                for k in (0, 2, 3):
+                    ctx.count(("number-limits-precision", str(dflt), lo, hi, k), nontrivial=True)
+                    exact = 1.5 * (hi ** (k + 1) - lo ** (k + 1)) / (k + 1)
+                    f = lambda x, c: c * x.to(DT) ** k
+                    v = float(quad(f, lo, hi, params=(a,), n=8).detach())
+                    vt = float(quad(f, torch.tensor(lo, dtype=DT), torch.tensor(hi, dtype=DT), params=(a,), n=8).detach())
+                    vs = float(quad(f, hi, lo, params=(a,), n=8).detach())
+                    if not (abs(v - exact) <= 1e-14 and abs(v - vt) <= 1e-15 and abs(v + vs) <= 1e-15):
+                        ctx.fail("oracle", "quad:number-limits-precision", {"default_dtype": str(dflt), "xl": lo, "xu": hi, "integrand": "1.5 x^%d (float64)" % k},
+                                 {"quad": v, "with_float64_tensor_limits": vt, "limits_swapped": vs}, {"exact": exact})
+    finally:
+        torch.set_default_dtype(old)
+
+    class Poly(torch.nn.Module):
+        def __init__(self):
+            super().__init__()
+            self.c = torch.nn.Parameter(torch.tensor([1.0, -2.0, 0.5], dtype=DT))
+
+        def forward(self, x):
+            return self.c[0] + self.c[1] * x + self.c[2] * x * x
+
+    m = Poly()
+    h = m.register_forward_hook(lambda mod, inp, out: out * 2.0)
+    xl, xu = torch.tensor(0.0, dtype=DT), torch.tensor(2.0, dtype=DT)
+    exact_plain = 1.0 * 2 - 2.0 * 2 + 0.5 * 8 / 3
+    for name, fcn, want in (("nn.Module with a forward hook", m, 2.0 * exact_plain), ("lambda around the module", lambda x: m(x), 2.0 * exact_plain)):
+        ctx.count(("integrand-callable-kind", name), nontrivial=True)
+        try:
+            with warnings.catch_warnings():
+                warnings.simplefilter("ignore")
+                v = float(quad(fcn, xl, xu, n=6).detach())
+        except Exception as e:
+            ctx.fail("oracle", "quad:integrand-callable-kind:exception", {"integrand": name}, repr(e)[:200], "the integral of what obj(x) returns")
+            continue
+        if not abs(v - want) <= 1e-12:
+            ctx.fail("oracle", "quad:integrand-callable-kind", {"integrand": name, "interval": [0.0, 2.0]}, v, want)
+    h.remove()
 
 
 def search(ctx):
